@@ -398,7 +398,8 @@ def run(ctx: C.Ctx):
     narrower_data_case(ctx)
     ctx.extra["exhaustive"] = True
     if offenders:
-        if any(v.kind == "concrete" for v in ctx.violations[n_before:]):
+        known = {k.get("signature") for k in C.load_known_findings() if k.get("property") == "C19" and k.get("status") == "known"}
+        if any(v.kind == "concrete" and (v.data or {}).get("signature") not in known for v in ctx.violations[n_before:]):
             ctx.notes.append("generated guard theorems that no longer check: " + ", ".join("guard_" + o for o in offenders))
         else:
             ctx.violation("no-failing-input-found",
